@@ -132,7 +132,7 @@ func genG(r *vh.Rand) string {
 			toks = append(toks, "N")
 		case c < 72:
 			// http check: status sent by the server vs. the conf's expectation (exact code, 0 = any, 1..31 = class mask)
-			code := []int{200, 200, 204, 301, 302, 404, 500, 503, 100 + r.Intn(500)}[r.Intn(9)]
+			code := []int{200, 200, 204, 301, 302, 404, 500, 503, 200 + r.Intn(400)}[r.Intn(9)]
 			want := []int{200, 200, 0, 2, 6, 31, 16, 1, 404, 302, code, r.Intn(32), 600, 99}[r.Intn(14)]
 			toks = append(toks, fmt.Sprintf("P%d:%d:%d", code, want, sth))
 		default:
@@ -391,7 +391,7 @@ func startHTTP() {
 		code := 418
 		if strings.HasPrefix(r.URL.Path, "/c/") && r.Method == "GET" &&
 			r.Host == "verif.host:"+strconv.Itoa(httpPort) && r.Header.Get("Accept") == "*/*" {
-			if v, err := strconv.Atoi(r.URL.Path[3:]); err == nil && v >= 100 && v <= 599 {
+			if v, err := strconv.Atoi(r.URL.Path[3:]); err == nil && v >= 200 && v <= 599 { // 1xx would be sent as an informational response followed by 200
 				code = v
 			}
 		}
@@ -474,15 +474,16 @@ func barrier() bool {
 	}
 }
 
-// waitQuiet waits (bounded) until a checker has arrived at the gate `wantArrivals` times in total, or no checker of
-// this case is alive.
-func (g *gate) waitQuiet(wantArrivals int64) bool {
+// waitQuiet waits (bounded) until a checker has arrived at the gate `wantArrivals` times in total, or fewer than
+// `liveBelow` checkers of this case are alive (1 = none left; after letting ONE parked checker run: the number alive
+// before, so that a second, wrongly started checker that stays parked does not keep us waiting).
+func (g *gate) waitQuiet(wantArrivals int64, liveBelow int) bool {
 	deadline := time.Now().Add(waitMax)
 	for {
 		if atomic.LoadInt64(&g.arrivals) >= wantArrivals {
 			return true
 		}
-		if g.live() == 0 {
+		if g.live() < liveBelow {
 			return true
 		}
 		if time.Now().After(deadline) {
@@ -529,12 +530,13 @@ func (g *gate) finish(b *backend.BfeBackend, parked bool, arr int64) string {
 	}
 	res := "end:0"
 	if parked {
+		lb := g.live()
 		if !g.pass(mkConf(1, 1<<30, 1, 1)) {
 			res = "end:HANG"
-		} else if !g.waitQuiet(arr + 1) {
+		} else if !g.waitQuiet(arr+1, lb) {
 			res = "end:HANG"
 		}
-	} else if !g.waitQuiet(1 << 60) {
+	} else if !g.waitQuiet(1<<60, 1) {
 		res = "end:HANG"
 	}
 	if res == "end:0" {
@@ -592,7 +594,7 @@ func execG(toks []string) (res string) {
 			if !parked {
 				// a new checker either parks (arrival) or, if the backend is released, exits at once
 				if g.live() > before || atomic.LoadInt64(&g.arrivals) > arr {
-					if !g.waitQuiet(arr + 1) {
+					if !g.waitQuiet(arr+1, 1) {
 						return strings.Join(append(out, "HANG:spawn"), " ")
 					}
 					if atomic.LoadInt64(&g.arrivals) > arr {
@@ -635,11 +637,12 @@ func execG(toks []string) (res string) {
 				conf = mkHTTPConf(v, code, want)
 			}
 			if parked {
+				lb := g.live()
 				if !g.pass(conf) {
 					return strings.Join(append(out, "HANG:gate"), " ")
 				}
 				parked = false
-				if !g.waitQuiet(arr + 1) {
+				if !g.waitQuiet(arr+1, lb) {
 					return strings.Join(append(out, "HANG:iteration"), " ")
 				}
 				if atomic.LoadInt64(&g.arrivals) > arr {
@@ -704,7 +707,7 @@ func execX(spec string) (res string) {
 		close(start)
 		wg.Wait()
 		if !parked && !b.Avail() {
-			if !g.waitQuiet(arr + 1) {
+			if !g.waitQuiet(arr+1, 1) {
 				return strings.Join(append(out, "HANG:spawn"), " ")
 			}
 			// give a (wrong) second checker the chance to show up
@@ -716,11 +719,12 @@ func execX(spec string) (res string) {
 		}
 		out = append(out, g.obs7(b, base))
 		if parked {
+			lb := g.live()
 			if !g.pass(mkConf(1, 1, lnPort, 1)) {
 				return strings.Join(append(out, "HANG:gate"), " ")
 			}
 			parked = false
-			if !g.waitQuiet(arr + 1) {
+			if !g.waitQuiet(arr+1, lb) {
 				return strings.Join(append(out, "HANG:iteration"), " ")
 			}
 			if atomic.LoadInt64(&g.arrivals) > arr {
